@@ -44,7 +44,7 @@ def build_harness(verbose=False, pkg="vh"):
         lock.close()
 
 
-def build_repo_bins(verbose=False):
+def build_repo_bins(verbose=False, pkgs=("varlink-cli", "varlink_generator", "varlink-certification")):
     """Build the varlink CLI, generator and certification binaries of /repo (hooks off: these are the shipped programs)."""
     os.makedirs(TARGET, exist_ok=True)
     lock = open(os.path.join(TARGET, ".repo.lock"), "w")
@@ -52,7 +52,10 @@ def build_repo_bins(verbose=False):
     try:
         e = env_offline()
         e["CARGO_TARGET_DIR"] = os.path.join(TARGET, "repo")
-        p = subprocess.run(["cargo", "build", "--offline", "-p", "varlink-cli", "-p", "varlink_generator", "-p", "varlink-certification"],
+        cmd = ["cargo", "build", "--offline"]
+        for pk in pkgs:
+            cmd += ["-p", pk]
+        p = subprocess.run(cmd,
                            cwd=REPO, env=e, stdout=subprocess.PIPE, stderr=subprocess.STDOUT, text=True)
         if p.returncode != 0:
             log(p.stdout[-6000:])
@@ -214,7 +217,7 @@ def main(argv):
     try:
         if argv[0] == "--setup":
             build_harness(verbose=True)
-            for extra in ("vcert",):
+            for extra in ("vts", "vcert"):
                 try:
                     build_harness(verbose=True, pkg=extra)
                 except Machinery as e:
@@ -243,9 +246,11 @@ def main(argv):
         except ValueError:
             seed = 0
         t0 = time.time()
-        build_harness(pkg=plan.get("pkg", "vh"))
+        pk = plan.get("pkg", "vh")
+        for one in ([pk] if isinstance(pk, str) else pk):
+            build_harness(pkg=one)
         if plan.get("needs_repo_bins"):
-            build_repo_bins()
+            build_repo_bins(pkgs=plan["needs_repo_bins"])
         scratch = os.path.join(TARGET, "scratch", "%s_%d" % (prop, os.getpid()))
         os.makedirs(scratch, exist_ok=True)
         known = load_known()
